@@ -1,4 +1,4 @@
-FIX_COMMITS = ['056fe00 (C14)', '194b898 (C18)', 'e5d1f9f (C05 sweep tie-break)', 'c0a262c (C10)']
+FIX_COMMITS = ['056fe00 (C14)', '194b898 (C18)', 'e5d1f9f (C05 sweep tie-break)', 'c0a262c (C10)', '7c606c6 (C20)']
 CHECKS = {
  'C14': dict(category='proof',
    text='For all (n_nodes, n_cores, n_inputs, trials, job_idx) - no bound - the body of run_parallel is executed symbolically and 10 '
@@ -63,5 +63,19 @@ CHECKS['C10'] = dict(category='proof',
    note='Assumed: GF(2)-linearity of the syndrome (C03) to lift the one-edge lemma to accumulated corrections; builder summaries; tie-break is arbitrary. The composition '
         '"signs = face syndrome of error+correction at every step" is a lemma over geom + site + update, not a separately discharged VC.',
    technique='LIA VCs with symbolic lattice size from the AST of flip_edge/get_stabilizer; functional-map model for site; structural rule on sweep_move; run-time contracts')
+CHECKS['C17'] = dict(category='other',
+   text='Proof part: StabilizerCode.d is executed symbolically over abstract k x 2n logical matrices and shown to be the minimum over BOTH matrices of the row weight '
+        '|supp x U supp z|; with C01 every such row is a non-trivial logical, so d is an upper bound on the distance for every class and size. The lower bound (no lighter '
+        'logical exists) has no contract within reach for unbounded L: it is decided only by an exact z3 pseudo-Boolean search on the real matrices for every class at every '
+        'supported size with n <= 110 (quick) / 200 (thorough), witnesses re-checked natively. Claimed level is therefore "other", not proof.',
+   note='Trusted: z3 pseudo-Boolean search for the bounded part; C01 for non-triviality of the listed rows; deformation preserves weights (C08).',
+   technique='array VC from the AST of StabilizerCode.d (upper bound); exact bounded minimum-weight search for the lower bound')
+CHECKS['C20'] = dict(category='other',
+   text='Finite and complete: for each of the 16 classes the strings stabilizer_type can return on a stabilizer location are computed by symbolic execution with symbolic lattice '
+        'size (one reachability query per string), and gui-config.json is checked to hold a complete drawable description (object, colours in the colormap literal, opacity, params) '
+        'for each of them and for the qubits in both pictures the visualizer offers; the code and decoder menus are checked on the AST. Request/response faithfulness '
+        '(H, logicals, index order, decoder menu, /decode vs the library decoder) goes through the Flask test client on bounded sizes.',
+   note='Assumed: main.js offers the rotated picture for every code (text scan). Class-specific overrides of *_representation and Flask/json are exercised only by the bounded layer.',
+   technique='symbolic execution of stabilizer_type + cover queries; table lookup; Flask test client as run-time contract')
 _PENDING = 'check under construction in this session (contract-based check planned in DESIGN.md section 3); not claimed until its command exists'
 NOT_APPLICABLE = {p: _PENDING for p in ['C%02d' % i for i in range(1, 21)]}
